@@ -1,8 +1,13 @@
 package c04
 
 import (
+	"errors"
 	"fmt"
+	"io"
 	"net"
+	"net/http"
+	"regexp"
+	"runtime"
 	"strings"
 	"time"
 
@@ -19,10 +24,97 @@ func rst(c *hk.Conn) {
 	c.NetConn().Close()
 }
 
+// isTimeout reports whether a read ended because the harness's own deadline expired.
+func isTimeout(err error) bool {
+	var ne net.Error
+	return errors.As(err, &ne) && ne.Timeout()
+}
+
+// outputRequestEnded watches, from the client's side and without sending
+// anything, what the server does with a request whose body the client has not
+// finished: it reports how the request ended (the response arrived complete, or
+// the server let go of the connection), or "" if neither happened within d.
+func outputRequestEnded(c *hk.Conn, d time.Duration) string {
+	c.SetReadDeadline(time.Now().Add(d))
+	defer c.SetReadDeadline(time.Time{})
+	resp, err := http.ReadResponse(c.R, &http.Request{Method: "POST"})
+	if err != nil {
+		if isTimeout(err) {
+			return ""
+		}
+		return "connection-released"
+	}
+	if _, err := io.Copy(io.Discard, resp.Body); err != nil {
+		if isTimeout(err) {
+			return ""
+		}
+		return "connection-released"
+	}
+	return "response-complete"
+}
+
+// inputRequestEnded does the same for the response that carries operator
+// input: it must come to its end (or the connection be let go of).
+func inputRequestEnded(in *crs.InStream, d time.Duration) string {
+	deadline := time.Now().Add(d)
+	for time.Now().Before(deadline) {
+		_, err := in.ReadLine(time.Until(deadline))
+		switch {
+		case err == nil:
+			continue // a line that was still on its way
+		case err == io.EOF:
+			return "response-complete"
+		case isTimeout(err):
+			return ""
+		default:
+			return "connection-released"
+		}
+	}
+	return ""
+}
+
+var httpSideRe = regexp.MustCompile(`net/http\.\(\*(conn|connReader|response|body|chunkWriter)\)\.[A-Za-z]+|internal/hsrv\.\(\*Server\)\.(inputHandler|outputHandler|inOutHandler|abandon[A-Za-z]+)`)
+
+// httpGoroutines returns the stacks of goroutines that serve a connection of
+// the in-process HTTP server (net/http's per-connection goroutines and the
+// shell handlers); the harness's own clients use raw TLS and have none.
+func httpGoroutines() []string {
+	buf := make([]byte, 1<<20)
+	for {
+		n := runtime.Stack(buf, true)
+		if n < len(buf) {
+			buf = buf[:n]
+			break
+		}
+		buf = make([]byte, 2*len(buf))
+	}
+	var out []string
+	for _, g := range strings.Split(string(buf), "\n\n") {
+		if strings.Contains(g, "net/http.(*conn).serve") || strings.Contains(g, "net/http.(*connReader).backgroundRead") || strings.Contains(g, "internal/hsrv.(*Server).inputHandler") || strings.Contains(g, "internal/hsrv.(*Server).outputHandler") || strings.Contains(g, "internal/hsrv.(*Server).inOutHandler") {
+			out = append(out, g)
+		}
+	}
+	return out
+}
+
+func httpLeakKey(stack string) string {
+	if m := httpSideRe.FindString(stack); m != "" {
+		return "goroutine-left-behind:" + m[strings.LastIndex(m, "/")+1:]
+	}
+	return "goroutine-left-behind:http"
+}
+
+const littleOutstanding = 256 << 10 // what net/http is prepared to wait for by itself after a handler is done
+
 // httpGenerations: the same tear-down guarantees with real clients over TLS:
 // the endings are produced by closing, resetting or properly ending real
 // connections; after each, one gone notice, the callback help once, every
 // stream disconnected without further traffic, and the next shell works.
+// The shell's output is a chunked upload, an upload with a declared length of
+// which little is outstanding when the shell ends, or one with much
+// outstanding; whichever request the client has not dropped itself must be
+// seen ended by the server from the client's side, without the client sending
+// anything more.
 func httpGenerations(r *mon.Run) {
 	n := r.N(24, 300)
 	gensPer := r.N(25, 60)
@@ -30,194 +122,329 @@ func httpGenerations(r *mon.Run) {
 		if !r.Want("http", i) {
 			return
 		}
-		rng := r.Rng("http", i)
-		s, err := hk.Start(hk.Config{})
-		if err != nil {
-			r.Inconclusive("server: " + err.Error())
-			return
+		httpSeries(r, "http", i, gensPer, false)
+	})
+	r.Floor("http_generations", int64(n*gensPer*8/10))
+	for _, c := range []string{"chunked", "len-little", "len-much"} {
+		r.Floor("http_out_class:"+c, int64(n*gensPer/20))
+	}
+	r.Floor("http_client_saw_request_ended:input", int64(n*gensPer/30))
+	r.Floor("http_client_saw_request_ended:output-chunked", int64(n*gensPer/60))
+	r.Floor("http_client_saw_request_ended:output-len-little", int64(n*gensPer/60))
+	r.Floor("http_client_saw_request_ended:output-len-much", int64(n*gensPer/60))
+	r.Floor("http_input_ended_first_with_declared_length_upload_stalled", int64(n*gensPer/100))
+}
+
+// httpSerialCounts is how many series (and shells each) the serial child
+// processes run with the goroutine scan.
+func httpSerialCounts(r *mon.Run) (n, gensPer int) { return r.N(16, 96), r.N(10, 30) }
+
+// httpSeries runs one server and gensPer shells in series against it.  With
+// scan (serial child processes only: the harness and the server share the
+// process) the goroutines serving the server's connections are looked for
+// once the clients have closed theirs.
+func httpSeries(r *mon.Run, engine string, i, gensPer int, scan bool) {
+	rng := r.Rng(engine, i)
+	s, err := hk.Start(hk.Config{})
+	if err != nil {
+		r.Inconclusive("server: " + err.Error())
+		return
+	}
+	defer s.Stop()
+	var hist []string
+	viol := func(key, what string) {
+		r.Violate(engine, i, key, what, map[string]any{"generations": hist, "log_tail": s.Log.Tail(30)})
+	}
+	// the start-up help must be out before the first window opens
+	s.Log.Wait(0, hk.Bound, func(e bk.Event) bool { return e.Kind == "op" && strings.Contains(e.S, "--pinnedpubkey") })
+	from, _ := s.Mark(fmt.Sprintf("MARK-%s-%d-start", engine, i))
+	for g := 0; g < gensPer; g++ {
+		bidir := rng.IntN(3) == 0
+		attach := []string{"full", "full", "in-only", "out-only"}[rng.IntN(4)]
+		if bidir {
+			attach = "full"
 		}
-		defer s.Stop()
-		var hist []string
-		viol := func(key, what string) {
-			r.Violate("http", i, key, what, map[string]any{"generations": hist, "log_tail": s.Log.Tail(30)})
+		ending := []string{"close-in", "close-out", "end-out", "rst-in", "rst-out", "close-both"}[rng.IntN(6)]
+		if attach == "in-only" {
+			ending = []string{"close-in", "rst-in"}[rng.IntN(2)]
 		}
-		// the start-up help must be out before the first window opens
-		s.Log.Wait(0, hk.Bound, func(e bk.Event) bool { return e.Kind == "op" && strings.Contains(e.S, "--pinnedpubkey") })
-		from, _ := s.Mark(fmt.Sprintf("MARK-%d-start", i))
-		for g := 0; g < gensPer; g++ {
-			bidir := rng.IntN(3) == 0
-			attach := []string{"full", "full", "in-only", "out-only"}[rng.IntN(4)]
-			if bidir {
-				attach = "full"
+		if attach == "out-only" {
+			ending = []string{"close-out", "end-out", "rst-out"}[rng.IntN(3)]
+		}
+		load := []string{"idle", "outflood", "inburst"}[rng.IntN(3)]
+		// how the shell's output travels: a chunked upload (the stock script), or an upload with a
+		// declared length of which little / much is still outstanding when the shell ends
+		class := []string{"chunked", "len-little", "len-much"}[rng.IntN(3)]
+		var outstanding int64
+		switch class {
+		case "len-little":
+			outstanding = []int64{1, 1 + rng.Int64N(4096), 1 + rng.Int64N(littleOutstanding), littleOutstanding}[rng.IntN(4)]
+		case "len-much":
+			outstanding = littleOutstanding + 1 + rng.Int64N(32<<10)
+			if ending != "end-out" && rng.IntN(2) == 0 {
+				outstanding = []int64{littleOutstanding + 1 + rng.Int64N(1<<20), 1 << 40}[rng.IntN(2)]
 			}
-			ending := []string{"close-in", "close-out", "end-out", "rst-in", "rst-out", "close-both"}[rng.IntN(6)]
-			if attach == "in-only" {
-				ending = []string{"close-in", "rst-in"}[rng.IntN(2)]
-			}
-			if attach == "out-only" {
-				ending = []string{"close-out", "end-out", "rst-out"}[rng.IntN(3)]
-			}
-			load := []string{"idle", "outflood", "inburst"}[rng.IntN(3)]
-			desc := fmt.Sprintf("bidir=%v attach=%s load=%s ending=%s", bidir, attach, load, ending)
+		}
+		if attach == "in-only" {
+			class, outstanding = "none", 0
+		}
+		id := fmt.Sprintf("g%d-%d", i, g)
+		tok := fmt.Sprintf("TOK-%d-%d;", i, g)
+		const floodChunks, floodChunk = 40, 1500
+		planned := int64(len(tok))
+		if load == "outflood" {
+			planned += floodChunks * floodChunk
+		}
+		declared := planned + outstanding
+		desc := fmt.Sprintf("bidir=%v attach=%s load=%s ending=%s output=%s", bidir, attach, load, ending, class)
+		if class == "len-little" || class == "len-much" {
+			hist = append(hist, fmt.Sprintf("%s (Content-Length %d, %d outstanding)", desc, declared, outstanding))
+		} else {
 			hist = append(hist, desc)
-			id := fmt.Sprintf("g%d-%d", i, g)
-			var in *crs.InStream
-			var out *crs.OutStream
-			if bidir {
-				io, err := crs.OpenIO(s.Addr)
+		}
+		var in *crs.InStream
+		var out *crs.OutStream
+		var sent int64
+		send := func(data string) {
+			out.Send(data)
+			sent += int64(len(data))
+		}
+		if bidir {
+			var ios *crs.IOStream
+			if class == "chunked" {
+				ios, err = crs.OpenIO(s.Addr)
+			} else {
+				ios, err = crs.OpenIOLen(s.Addr, declared)
+			}
+			if err != nil {
+				r.Inconclusive(err.Error())
+				return
+			}
+			in, out = ios.In, ios.Out
+		} else {
+			if attach != "out-only" {
+				if in, err = crs.OpenIn(s.Addr, "/i/"+id); err != nil {
+					r.Inconclusive(err.Error())
+					return
+				}
+			}
+			if attach != "in-only" {
+				if class == "chunked" {
+					out, err = crs.OpenOut(s.Addr, "/o/"+id)
+				} else {
+					out, err = crs.OpenOutLen(s.Addr, "/o/"+id, declared)
+				}
 				if err != nil {
 					r.Inconclusive(err.Error())
 					return
 				}
-				in, out = io.In, io.Out
-			} else {
-				if attach != "out-only" {
-					if in, err = crs.OpenIn(s.Addr, "/i/"+id); err != nil {
-						r.Inconclusive(err.Error())
-						return
-					}
-				}
-				if attach != "in-only" {
-					if out, err = crs.OpenOut(s.Addr, "/o/"+id); err != nil {
-						r.Inconclusive(err.Error())
-						return
-					}
-				}
 			}
-			// the fresh shell must be accepted and working
-			wantConn := 1
-			if attach == "full" {
-				wantConn = 2
-			}
-			nc := 0
-			if _, ok := s.Log.Wait(from, hk.Bound, func(e bk.Event) bool {
-				if e.Kind == "json" && strings.Contains(e.S, `"msg":"New connection"`) {
-					nc++
-				}
-				return nc >= wantConn
-			}); !ok {
-				viol("fresh-shell-refused", fmt.Sprintf("generation %d (%s): the new shell was not attached after the previous one had gone", g, desc))
-				return
-			}
+		}
+		closeAll := func() {
 			if in != nil {
-				l := fmt.Sprintf("probe-%d-%d", i, g)
-				s.Ich <- l
-				if got, err := in.ReadLine(hk.Bound); err != nil || got != l {
-					viol("live-input-not-fed", fmt.Sprintf("generation %d (%s): probe line did not reach the new shell: %q %v", g, desc, got, err))
-					return
-				}
+				in.Close()
 			}
 			if out != nil {
-				tok := fmt.Sprintf("TOK-%d-%d;", i, g)
-				out.Send(tok)
-				if _, ok := s.Log.Wait(from, hk.Bound, func(e bk.Event) bool { return e.Kind == "op" && e.Plain && strings.Contains(e.S, tok) }); !ok {
-					viol("live-output-not-shown", fmt.Sprintf("generation %d (%s): output of the new shell was not shown", g, desc))
-					return
-				}
-			}
-			switch load {
-			case "outflood":
-				if out != nil {
-					for k := 0; k < 40; k++ {
-						out.Send(strings.Repeat("f", 1500))
-					}
-				}
-			case "inburst":
-				if in != nil {
-					for k := 0; k < 10; k++ {
-						s.Ich <- fmt.Sprintf("burst-%d", k)
-					}
-				}
-			}
-			// the ending, produced by the client
-			switch ending {
-			case "close-in":
-				in.Close()
-			case "close-out":
 				out.Close()
-			case "end-out":
-				out.End()
-			case "rst-in":
-				rst(in.C)
-			case "rst-out":
-				rst(out.C)
-			case "close-both":
-				in.Close()
-				if !bidir {
-					out.Close()
+			}
+		}
+		// the fresh shell must be accepted and working
+		wantConn := 1
+		if attach == "full" {
+			wantConn = 2
+		}
+		nc := 0
+		if _, ok := s.Log.Wait(from, hk.Bound, func(e bk.Event) bool {
+			if e.Kind == "json" && strings.Contains(e.S, `"msg":"New connection"`) {
+				nc++
+			}
+			return nc >= wantConn
+		}); !ok {
+			viol("fresh-shell-refused", fmt.Sprintf("generation %d (%s): the new shell was not attached after the previous one had gone", g, desc))
+			closeAll()
+			return
+		}
+		if in != nil {
+			l := fmt.Sprintf("probe-%d-%d", i, g)
+			s.Ich <- l
+			if got, err := in.ReadLine(hk.Bound); err != nil || got != l {
+				viol("live-input-not-fed", fmt.Sprintf("generation %d (%s): probe line did not reach the new shell: %q %v", g, desc, got, err))
+				closeAll()
+				return
+			}
+		}
+		if out != nil {
+			send(tok)
+			if _, ok := s.Log.Wait(from, hk.Bound, func(e bk.Event) bool { return e.Kind == "op" && e.Plain && strings.Contains(e.S, tok) }); !ok {
+				viol("live-output-not-shown", fmt.Sprintf("generation %d (%s): output of the new shell was not shown", g, desc))
+				closeAll()
+				return
+			}
+		}
+		switch load {
+		case "outflood":
+			if out != nil {
+				for k := 0; k < floodChunks; k++ {
+					send(strings.Repeat("f", floodChunk))
 				}
 			}
-			// without further traffic: gone notice, help re-printed, every stream disconnected
-			gev, ok := s.Log.Wait(from, hk.Bound, func(e bk.Event) bool { return e.Kind == "op" && strings.Contains(e.S, "Shell is gone") })
-			if !ok {
-				viol("shell-not-torn-down", fmt.Sprintf("generation %d (%s): after the client's %s no gone notice appeared (the other direction was not ended)", g, desc, ending))
-				return
+		case "inburst":
+			if in != nil {
+				for k := 0; k < 10; k++ {
+					s.Ich <- fmt.Sprintf("burst-%d", k)
+				}
 			}
-			if _, ok := s.Log.Wait(gev.Seq, hk.Bound, func(e bk.Event) bool { return e.Kind == "op" && strings.Contains(e.S, "To get a shell:") }); !ok {
-				viol("callback-help-not-reprinted", fmt.Sprintf("generation %d: the callback help was not printed again after the shell had gone", g))
-				return
+		}
+		// the ending, produced by the client; afterwards the client sends nothing more
+		inOpen, outOpen := in != nil, out != nil && !bidir // requests the client has not dropped itself (/io is one request: the input's)
+		switch ending {
+		case "close-in":
+			in.Close()
+			inOpen = false
+		case "close-out":
+			out.Close()
+			outOpen = false
+			inOpen = inOpen && !bidir
+		case "end-out":
+			// the output stream ends by itself: the last chunk, or the last of the declared bytes
+			if out.Fixed {
+				out.Send(strings.Repeat("z", int(declared-sent)))
+			} else {
+				out.End()
 			}
-			deadline := time.Now().Add(hk.Bound)
-			idle := false
-			for time.Now().Before(deadline) {
-				c, d := 0, 0
-				for _, e := range s.Log.Snapshot()[from:] {
-					if e.Kind == "json" {
-						if strings.Contains(e.S, `"msg":"New connection"`) {
-							c++
-						} else if strings.Contains(e.S, `"msg":"Disconnected"`) {
-							d++
-						}
+		case "rst-in":
+			rst(in.C)
+			inOpen = false
+		case "rst-out":
+			rst(out.C)
+			outOpen = false
+			inOpen = inOpen && !bidir
+		case "close-both":
+			in.Close()
+			if !bidir {
+				out.Close()
+			}
+			inOpen, outOpen = false, false
+		}
+		// without further traffic: gone notice, help re-printed, every stream disconnected
+		gev, ok := s.Log.Wait(from, hk.Bound, func(e bk.Event) bool { return e.Kind == "op" && strings.Contains(e.S, "Shell is gone") })
+		if !ok {
+			viol("shell-not-torn-down", fmt.Sprintf("generation %d (%s): after the client's %s no gone notice appeared (the other direction was not ended)", g, desc, ending))
+			closeAll()
+			return
+		}
+		if _, ok := s.Log.Wait(gev.Seq, hk.Bound, func(e bk.Event) bool { return e.Kind == "op" && strings.Contains(e.S, "To get a shell:") }); !ok {
+			viol("callback-help-not-reprinted", fmt.Sprintf("generation %d: the callback help was not printed again after the shell had gone", g))
+			closeAll()
+			return
+		}
+		deadline := time.Now().Add(hk.Bound)
+		idle := false
+		for time.Now().Before(deadline) {
+			c, d := 0, 0
+			for _, e := range s.Log.Snapshot()[from:] {
+				if e.Kind == "json" {
+					if strings.Contains(e.S, `"msg":"New connection"`) {
+						c++
+					} else if strings.Contains(e.S, `"msg":"Disconnected"`) {
+						d++
 					}
 				}
-				if c == d {
-					idle = true
+			}
+			if c == d {
+				idle = true
+				break
+			}
+			time.Sleep(2 * time.Millisecond)
+		}
+		if !idle {
+			viol("stream-left-attached", fmt.Sprintf("generation %d (%s): a stream is still attached although the shell is gone", g, desc))
+			closeAll()
+			return
+		}
+		// seen from the client: the requests it has not dropped itself are ended by the server
+		// (answered completely, or their connection let go of) although it sends nothing more
+		if outOpen {
+			how := outputRequestEnded(out.C, hk.Bound)
+			if how == "" {
+				viol("output-request-not-ended-without-further-traffic", fmt.Sprintf("generation %d (%s; %d of the declared %d bytes sent): the shell was announced gone after the client's %s, but %s later the server has neither answered the shell's output request nor let go of its connection, while the client sent nothing: the other direction is not ended without further traffic", g, desc, sent, declared, ending, hk.Bound))
+				closeAll()
+				return
+			}
+			r.Count(engine+"_client_saw_request_ended:output-"+class, 1)
+			r.Count(engine+"_output_request_ended_by:"+how, 1)
+			if (ending == "close-in" || ending == "rst-in") && class == "len-little" {
+				r.Count(engine+"_input_ended_first_with_declared_length_upload_stalled", 1)
+			}
+		}
+		if inOpen {
+			how := inputRequestEnded(in, hk.Bound)
+			if how == "" {
+				viol("input-request-not-ended-without-further-traffic", fmt.Sprintf("generation %d (%s): the shell was announced gone after the client's %s, but %s later the response carrying the shell's input has not come to its end, while the client sent nothing: the other direction is not ended without further traffic", g, desc, ending, hk.Bound))
+				closeAll()
+				return
+			}
+			r.Count(engine+"_client_saw_request_ended:input", 1)
+			r.Count(engine+"_input_request_ended_by:"+how, 1)
+		}
+		closeAll()
+		if scan {
+			// the transport streams are closed: nothing serving them may be left
+			var left []string
+			scanEnd := time.Now().Add(hk.Bound)
+			for k := 0; ; k++ {
+				left = append(httpGoroutines(), iobGoroutines()...)
+				if len(left) == 0 || !time.Now().Before(scanEnd) {
 					break
 				}
-				time.Sleep(2 * time.Millisecond)
+				runtime.Gosched()
+				time.Sleep(time.Duration(k/10+1) * time.Millisecond)
 			}
-			if !idle {
-				viol("stream-left-attached", fmt.Sprintf("generation %d (%s): a stream is still attached although the shell is gone", g, desc))
+			r.Count(engine+"_leak_scans", 1)
+			for _, st := range left {
+				key := httpLeakKey(st)
+				if strings.Contains(st, "/internal/iobroker.") {
+					key = leakKey(st)
+				}
+				viol(key, fmt.Sprintf("generation %d (%s): the shell is gone and the client has closed its connections, yet %s later a goroutine still serves one of them:\n%s", g, desc, hk.Bound, st))
+			}
+			if len(left) > 0 {
 				return
 			}
-			if in != nil {
-				in.Close()
-			}
-			if out != nil {
-				out.Close()
-			}
-			// drain lines the burst left queued (the next shell would get them; that is C02's business)
-			for len(s.Ich) > 0 {
-				select {
-				case <-s.Ich:
-				default:
-				}
-			}
-			to, _ := s.Mark(fmt.Sprintf("MARK-%d-%d", i, g))
-			gone, help := 0, 0
-			for _, e := range s.OpLines(from, to) {
-				if strings.Contains(e.S, "Shell is gone") {
-					gone++
-				}
-				if strings.Contains(e.S, "To get a shell:") {
-					help++
-				}
-			}
-			if gone != 1 {
-				viol(fmt.Sprintf("gone-notices-%d", gone), fmt.Sprintf("generation %d (%s): %d gone notices", g, desc, gone))
-			}
-			if help != 1 {
-				viol(fmt.Sprintf("callback-help-printed-%d-times", help), fmt.Sprintf("generation %d (%s): callback help printed %d times after one shell", g, desc, help))
-			}
-			from = to
-			r.Eval(1)
-			r.Count("http_generations", 1)
-			r.Count("http_ending:"+ending, 1)
-			r.Distinct("http|" + desc)
 		}
-		if i == 0 {
-			r.Sample("http", map[string]any{"generations": hist})
+		// drain lines the burst left queued (the next shell would get them; that is C02's business)
+		for len(s.Ich) > 0 {
+			select {
+			case <-s.Ich:
+			default:
+			}
 		}
-	})
-	r.Floor("http_generations", int64(n*gensPer*8/10))
+		to, _ := s.Mark(fmt.Sprintf("MARK-%s-%d-%d", engine, i, g))
+		gone, help := 0, 0
+		for _, e := range s.OpLines(from, to) {
+			if strings.Contains(e.S, "Shell is gone") {
+				gone++
+			}
+			if strings.Contains(e.S, "To get a shell:") {
+				help++
+			}
+		}
+		if gone != 1 {
+			viol(fmt.Sprintf("gone-notices-%d", gone), fmt.Sprintf("generation %d (%s): %d gone notices", g, desc, gone))
+		}
+		if help != 1 {
+			viol(fmt.Sprintf("callback-help-printed-%d-times", help), fmt.Sprintf("generation %d (%s): callback help printed %d times after one shell", g, desc, help))
+		}
+		from = to
+		r.Eval(1)
+		r.Count(engine+"_generations", 1)
+		r.Count(engine+"_ending:"+ending, 1)
+		if out != nil {
+			r.Count(engine+"_out_class:"+class, 1)
+		}
+		r.Distinct("http|" + desc)
+	}
+	if i == 0 {
+		r.Sample(engine, map[string]any{"generations": hist})
+	}
 }
